@@ -99,12 +99,14 @@ def worker_main(argv: list[str]) -> int:
         "samples": [],
         "errors": [],
         "stopped_early": False,
+        "slowest": [0.0, -1],
     }
     for idx in range(shard, n, nshards):
         if time.monotonic() - t0 > budget:
             res["stopped_early"] = True
             break
         case = mod.gen_case(idx, seed, tier)
+        tc = time.monotonic()
         try:
             r = mod.run_case(case)
         except BaseException as exc:  # harness failure: never a verdict on asphalt
@@ -117,6 +119,9 @@ def worker_main(argv: list[str]) -> int:
                 break
             continue
         res["evaluations"] += 1
+        dtc = time.monotonic() - tc
+        if dtc > res["slowest"][0]:
+            res["slowest"] = [round(dtc, 3), idx]
         res["counters"].update(r.get("counters") or {})
         if r.get("nontrivial") and r.get("sig") is not None:
             res["sigs"].add(short_hash(r["sig"]))
@@ -181,7 +186,7 @@ def run_check(prop: str, tier: str, seed: int, jobs: int | None = None) -> int:
     watchdog = float(plan.get("budget_s", 120)) * 3 + 120
     merged: dict[str, Any] = {
         "evaluations": 0, "sigs": set(), "counters": Counter(), "violations": [], "n_violations": 0,
-        "samples": [], "errors": [], "stopped_early": 0, "reach": {}, "dead_shards": [],
+        "samples": [], "errors": [], "stopped_early": 0, "reach": {}, "dead_shards": [], "slowest": [0.0, -1],
     }
     deadline = time.monotonic() + watchdog
     for s, p, out in procs:
@@ -205,6 +210,8 @@ def run_check(prop: str, tier: str, seed: int, jobs: int | None = None) -> int:
         merged["samples"].extend(r["samples"])
         merged["errors"].extend(r["errors"])
         merged["stopped_early"] += bool(r["stopped_early"])
+        if r.get("slowest", [0])[0] > merged["slowest"][0]:
+            merged["slowest"] = r["slowest"]
         for k, v in r["reach"].items():
             merged["reach"].setdefault(k, set()).update(v)
     shutil.rmtree(tmp, ignore_errors=True)
@@ -260,6 +267,7 @@ def finish(mod: Any, prop: str, tier: str, seed: int, plan: dict[str, Any], m: d
         "known_finding_hits": dict(known_hits),
         "inconclusive_reasons": inconclusive,
         "workers_stopped_at_budget": m["stopped_early"],
+        "slowest_case": {"wall_s": m["slowest"][0], "index": m["slowest"][1]},
     }
     ev = {
         "property_id": prop, "tier": tier, "seed": int(seed), "level": mod.LEVEL,
@@ -281,7 +289,8 @@ def finish(mod: Any, prop: str, tier: str, seed: int, plan: dict[str, Any], m: d
 
     # ---------------- report
     print(f"== {prop} tier={tier} seed={seed} repo={REPO} wall={wall:.1f}s")
-    print(f"   cases run: {m['evaluations']} / planned {plan['cases']}; distinct non-trivial signatures: {distinct}")
+    print(f"   cases run: {m['evaluations']} / planned {plan['cases']}; distinct non-trivial signatures: {distinct}; "
+          f"slowest case #{m['slowest'][1]}: {m['slowest'][0]}s")
     show = sorted(counters.items())
     for i in range(0, len(show), 4):
         print("   " + "  ".join(f"{k}={v}" for k, v in show[i:i + 4]))
